@@ -73,3 +73,30 @@ Theorem c10_chain_rule_is_source :
     forall refs : Z, gtrue (upd (upd env0 "prev" 1%Z) "prev.refs" refs) c = Some (Z.ltb 2 refs).
 Proof. exact Decisions.rootcas_chain_decision. Qed.
 Print Assumptions c10_chain_rule_is_source.
+
+(* rootDecRefUnlocked / rootAddRef: Proto.decref and the pin / handle steps *)
+Theorem c10_decref_is_source :
+  forall r : Z,
+  exists rest, body "Collection.rootDecRefUnlocked" = SIncDec (GVar "r.refs") false :: SIf [] (GBin ">" (GVar "r.refs") (GInt 0)) [SReturn []] [] :: rest /\
+  (Z.lt 1 r -> gexec 10 (upd env0 "r.refs" r) (firstn 2 (body "Collection.rootDecRefUnlocked")) = RRet []) /\
+  (r = 1%Z -> exists rho, gexec 10 (upd env0 "r.refs" r) (firstn 2 (body "Collection.rootDecRefUnlocked")) = RFall rho /\ rho "r.refs" = Some 0%Z).
+Proof. exact Decisions.decref_decision. Qed.
+Print Assumptions c10_decref_is_source.
+
+Theorem c10_death_marks_unless_superseded_is_source :
+  exists c, decisions "Collection.rootDecRefUnlocked" "r.superseded" = [c] /\
+    forall sup : bool, gtrue (upd env0 "r.superseded" (b2z sup)) c = Some (negb sup).
+Proof. exact Decisions.death_marks_unless_superseded. Qed.
+Print Assumptions c10_death_marks_unless_superseded_is_source.
+
+Theorem c10_death_releases_chain_is_source :
+  exists c, decisions "Collection.rootDecRefUnlocked" "r.chainedCollection" = [c] /\
+    forall a b : bool, gtrue (upd (upd env0 "r.chainedCollection" (b2z a)) "r.chainedRootNodeLoc" (b2z b)) c = Some (a && b).
+Proof. exact Decisions.death_releases_chain. Qed.
+Print Assumptions c10_death_releases_chain_is_source.
+
+Theorem c10_addref_is_source :
+  exists pre post, body "Collection.rootAddRef" = pre ++ SIncDec (GVar "t.root.refs") true :: post /\
+                   Forall (fun s => match s with SIncDec _ _ | SAssign _ _ _ => False | _ => True end) (pre ++ post).
+Proof. exact Decisions.addref_is_increment. Qed.
+Print Assumptions c10_addref_is_source.
